@@ -6,14 +6,44 @@ SPEC = dict(
     instrument=FULL_STACK,
     deps=FULL_DEPS,
     level="exploration",
-    level_text="todo",
-    level_note="todo",
-    technique="todo",
+    level_text=("seeded search over layers x write splits x read-buffer sequences x wire fragmentation x schedules of the real "
+                "Noise session, TLS conn, PSK conn (raw simnet pipe), swarm streams over yamux over {Noise, TLS} through the real "
+                "upgrader, and basic-host streams with the lazy multistream streamWrapper (two real nodes); every byte of every "
+                "(stream, direction, offset) is a keyed function, compared after every Read; a frame-aware man in the middle "
+                "(flip / drop / duplicate / swap / truncate one ciphertext frame) in the adversary stratum. Sampling, not proof."),
+    level_note=("trusted: testing/synctest, simnet's TCP model (writes never block below 8 MiB, FIN after everything written), the "
+                "overlay rewrite, the keyed payload and the prefix oracle; weaker readings (documented in sim_test.go): a stream cut "
+                "on a frame boundary reads as io.EOF on the bare Noise and TLS connections (no authenticated end of stream; crypto/tls "
+                "accepts a FIN on a record boundary); after a read deadline expired on a reader only 'never wrong data, EOF only at the "
+                "real end' is demanded of it; (0, nil) reads are tolerated; an error wrapping io.EOF after the last byte counts as the end. "
+                "Not covered: tcpreuse sampledconn (internal package), QUIC/WebTransport/WebRTC/websocket transports, OS sockets."),
+    technique=("deterministic simulation with fault injection: keyed-payload prefix/equality oracle over generated write/read-size "
+               "sequences on five layers of the real stack, seeded lock-level scheduler, fragmenting simulated wire, frame-aware "
+               "ciphertext adversary"),
     design_ref="DESIGN.md section 6 (C02)",
     quick_s=50, thorough_s=600,
-    rule="todo",
-    probes=[],
-    real=[],
-    stubs=[],
-    assume=[],
+    rule=("one run = one tape: layer (noise | tls | pnet | swarm streams over yamux over noise|tls | basic-host streams over the same), "
+          "fault stratum (clean | timing: link latency + reader deadlines with retry + writer pauses + late readers | stall of one raw "
+          "endpoint | adversary: one ciphertext frame flipped/dropped/duplicated/swapped/stream truncated | peer-close: one side closes "
+          "the connection when it is done while the other side's readers lag), link chunking (whole | fragment | 1-3 bytes), 1-4 streams, "
+          "per (stream, direction) 0-5 writes with sizes biased to 0, 1, 65518-65520, 65535-65537, 2x and 3x+1 Noise frames, the yamux "
+          "window and the yamux-frame = Noise-frame edge, and a cycle of read-buffer sizes biased to 1, 2, 15-17, pending frame -17..+1, "
+          "64Ki+-1, 1Mi with 0-64 bytes of spare capacity; non-trivial = a fault fired or at least two Reads returned data; distinct = "
+          "distinct (scheduler decision hash, per-channel planned/accepted/delivered/read-count/end state)"),
+    probes=["noise-in-place", "noise-pooled-whole-frame", "noise-pooled-partial", "noise-queued-remainder",
+            "write-of-2-or-more-noise-frames", "one-byte-reads-across-frame-edge", "data-read-after-own-half-close",
+            "read-after-eof", "tamper-detected", "short-read", "zero-byte-read", "read-timeout", "lazy-multistream-stream",
+            "write-reaching-yamux-window",
+            "layer-noise", "layer-tls", "layer-pnet", "layer-mux-noise", "layer-mux-tls", "layer-host-noise", "layer-host-tls",
+            "stratum-clean", "stratum-timing", "stratum-stall", "stratum-adversary", "stratum-peer-close",
+            "observation:desynchronised-after-read-deadline/pnet/wrong-bytes",
+            "observation:desynchronised-after-read-deadline/noise/premature-eof"],
+    real=["ALL of the following run as tasks of the seeded scheduler (instrumented: every lock, channel operation, select, go statement is a scheduling point)",
+          "noise.Transport / secureSession (handshake, Read, Write)", "libp2ptls.Transport + crypto/tls conn (stdlib, not instrumented)",
+          "pnet pskConn", "upgrader (security + muxer negotiation), tcp transport dial path", "go-yamux session and streams + p2p/muxer/yamux glue",
+          "swarm conns and streams", "basic host NewStream / stream handlers / streamWrapper, go-multistream lazy client + server negotiation",
+          "identify, eventbus, pstoremem (present, not judged)"],
+    stubs=["wire: simnet TCP model (fragmentation, latency, stall, man-in-the-middle hook)"],
+    assume=["virtual clock of testing/synctest", "simnet delivers what was written before a FIN/Close (TCP semantics)",
+            "three quiet virtual minutes exceed every timeout on these paths (hang oracle)"],
 )
